@@ -91,6 +91,17 @@ func TestVerifC07Json(t *testing.T) {
 	rep := func(unit string) func(n int) []byte {
 		return func(n int) []byte { return []byte(strings.Repeat(unit, n/len(unit))) }
 	}
+	decs = append(decs, &vC07Dec{name: "json.reader.segments", gen: func(r *vRng) []byte {
+		return append(r.bytes(4), vC07JsonDoc(r)...)
+	}, max: 16384, run: func(b []byte) bool {
+		// the first four bytes drive the segmentation of the transport: segment sizes cycle through
+		// them (0 = an empty read, returned up to 120 times in a row)
+		if len(b) < 4 {
+			return true
+		}
+		_, err := ioutil.ReadAll(NewJsonPlusReader(&vC07SegReader{sizes: b[:4], b: b[4:]}))
+		return err != nil
+	}})
 	fams := []*vC07Fam{
 		{name: "json-dense-line-comments", dec: "json.reader", build: rep("//\n")},
 		{name: "json-dense-block-comments", dec: "json.reader", build: rep("/**/")},
@@ -127,3 +138,34 @@ func (o *vC07OneByte) Read(p []byte) (int, error) {
 var ioEOF = func() error { _, err := bytes.NewReader(nil).Read(make([]byte, 1)); return err }()
 
 func FuzzVerifC07Json(f *testing.F) { vC07FuzzTarget(f, TestVerifC07Json) }
+
+type vC07SegReader struct {
+	sizes []byte
+	b     []byte
+	i     int
+	empty int
+}
+
+func (o *vC07SegReader) Read(p []byte) (int, error) {
+	if len(o.b) == 0 {
+		return 0, ioEOF
+	}
+	n := int(o.sizes[o.i%len(o.sizes)]) % 9
+	o.i++
+	if n == 0 {
+		o.empty++
+		if o.empty%121 != 0 {
+			return 0, nil
+		}
+		n = 1
+	}
+	if n > len(o.b) {
+		n = len(o.b)
+	}
+	if n > len(p) {
+		n = len(p)
+	}
+	copy(p, o.b[:n])
+	o.b = o.b[n:]
+	return n, nil
+}
